@@ -21,7 +21,7 @@ import itertools
 from .. import framework as fw
 from ..gen import scope as G
 
-GEN_TABLES = ("registry",)
+GEN_TABLES = ("registry", "scope_chain", "resolve_order")
 FUEL = 400
 
 
@@ -505,8 +505,8 @@ def shrink_all(ctx, reps, max_rounds=40):
 def program_stream(ctx):
     """(label, program, paths or None)"""
     if ctx.quick:
-        seqs = G.sequences(3, 1)
-        n_random = 2000
+        seqs = G.sequences(3, 2)
+        n_random = 4000
         depth = 4
     else:
         seqs = G.sequences(4, 2)
@@ -540,10 +540,12 @@ def run(ctx: fw.Ctx):
         "names are bare identifiers or simply quoted ones (no escapes, no interpolation)",
         "function application is outside the spec's fragment (a set reached through a call is 'not a set')",
     ]
-    observe(ctx, program_stream(ctx), correspond=True)
     from . import c10_registry
 
+    # registry first: resolved documents are never released by the code under test (their contexts
+    # reference them), so everything that runs later in this process makes gc.collect() slower
     c10_registry.run(ctx)
+    observe(ctx, program_stream(ctx), correspond=True)
 
 
 def _real_program(args):
